@@ -13,7 +13,8 @@
 EXTENDS FcgiIn, HttpIn, TraceBase
 
 \* http.script_names of the harness' service configuration
-Scripts == << <<47,115,121,110,99>>, <<47,97,115,121,110,99>>, <<47,102,105,108,116>> >>   \* /sync /async /filt
+Scripts == << <<47,115,121,110,99>>, <<47,97,115,121,110,99>>, <<47,102,105,108,116>>,
+             <<47,114,97,119,102>>, <<47,109,112,102>> >>                      \* /sync /async /filt /rawf /mpf
 
 VARIABLES l, exp, seen
 tvars == <<l, exp, seen>>
